@@ -54,6 +54,8 @@ pub struct ManagedSnapshot {
     pub max_size: usize,
     /// Length of the idle queue
     pub idle_len: usize,
+    /// `Slots::debt`
+    pub debt: usize,
     /// `PoolInner::users`
     pub users: usize,
 }
